@@ -233,3 +233,19 @@ Proof.
   repeat split; try (vm_compute; reflexivity).
   eexists. exists p_out_a. split; [vm_compute; reflexivity|]. vm_compute. discriminate.
 Qed.
+
+(** removing a directory leaves alone the siblings whose name only starts like it *)
+Definition p_sub_b : path := ["src"; "sub"; "b.lua"]%string.
+Definition p_sub_file : path := ["src"; "sub.lua"]%string.
+Definition p_sub_extra : path := ["src"; "sub_extra"; "x.lua"]%string.
+Definition sib_f0 : fs := [(p_sub_b, [1]); (p_sub_file, [2]); (p_sub_extra, [3])].
+
+Example remove_directory_keeps_siblings :
+  exists w, run N toy_hash toy_xform t_inp t_out (mkWorld sib_f0 0 empty_tree)
+                (toy_init ++ [FsRemoveDir ["src"; "sub"]%string; RemoveSrc ["src"; "sub"]%string; Process])
+            = Running w /\
+            map i_src (all_items (w_tree w)) = [p_sub_file; p_sub_extra] /\
+            fs_get (w_fs w) ["out"; "sub.lua"]%string = Some [0; 2] /\
+            fs_get (w_fs w) ["out"; "sub_extra"; "x.lua"]%string = Some [0; 3] /\
+            fs_get (w_fs w) ["out"; "sub"; "b.lua"]%string = None.
+Proof. eexists. split; [vm_compute; reflexivity|]. vm_compute. auto. Qed.
